@@ -310,6 +310,11 @@ Init ==
 \* and has no effect; recorded traces carry it as the field `ret` of a "cb" submission.
 CbReturns == {"none", "one", "zero", "defer", "text"}
 
+\* NonAscii: a command text with a character outside ASCII may be refused at submission (an error to the caller on
+\* the spot: it was never submitted - what the code does) or accepted, and then it is a command like any other, to be
+\* written, resolved by its reply and failed by a loss.  Recorded traces say which happened (field `acc` of a
+\* submission of kind "na"); the trace specification takes the corresponding branch.
+SubmitRefused == m' = Reset(m) /\ UNCHANGED <<pending, cur, replies, nline, nev, reg, exp, may, cnt>>
 Submit(kind) ==
   /\ kind \in {"plain", "cb", "retry", "chain", "closer"}
   /\ m' = QueueCmd(Reset(m), kind, {})
